@@ -308,8 +308,8 @@ theorem resp_setNX (now : Int) (k value : Bytes) (keep : Bool) :
         refine ⟨rfl, ?_⟩
         apply emit_good
         apply signal_good
-        have g2 := newKeyWith_good g1 k none none .strNil
-        have h2 := hot_newKeyWith now s1 k none .strNil
+        have g2 := newKeyWith_good g1 k none none (.str [])
+        have h2 := hot_newKeyWith now s1 k none (.str [])
         cases keep with
         | true => exact setVal_good g2 k _ h2.visible
         | false => exact setVal_good (setExp_good g2 k 0 h2) k _ (hot_setExp_zero h2).visible
